@@ -403,6 +403,17 @@ func (s *simulator) handle(raw net.Conn, cfg *tls.Config, authority string) {
 			time.Sleep(time.Duration(ms*unit) * time.Millisecond)
 		}
 		conn.Close()
+	case strings.HasPrefix(rt.fault, "drip:"):
+		/* one byte every <us> microseconds, whatever the configured timeout is */
+		var us int
+		fmt.Sscanf(rt.fault, "drip:%d", &us)
+		for i := range body {
+			if _, err := conn.Write(body[i : i+1]); err != nil {
+				return
+			}
+			time.Sleep(time.Duration(us) * time.Microsecond)
+		}
+		conn.Close()
 	case strings.HasPrefix(rt.fault, "slowtail:"):
 		/* the first k bytes at once, the rest one byte every ms milliseconds (per second of
 		   timeout): every gap is shorter than the timeout, the whole response takes several */
